@@ -251,6 +251,23 @@ def selection_run(tier, seed, use_cache=True):
         return res
 
 
+def replicas_engine(tier, seed, use_cache=True):
+    from . import replicas
+    binary, bkey = build_harness()
+    key = run_key(tier, seed, "replicas")
+    rdir = os.path.join(CACHE, "run", key)
+    with Lock(os.path.join(CACHE, "run-" + key + ".lock")):
+        rfile = os.path.join(rdir, "result.json")
+        if use_cache and os.path.exists(rfile):
+            return json.load(open(rfile))
+        shutil.rmtree(rdir, ignore_errors=True)
+        os.makedirs(rdir)
+        res = replicas.replicas_run(binary, rdir, tier, seed)
+        res["dir"] = rdir
+        json.dump(res, open(rfile, "w"))
+        return res
+
+
 FAMILY = ["C02", "C04", "C05", "C06", "C07", "C08", "C09", "C10", "C11", "C12", "C13", "C14", "C15", "C16", "C17", "C20"]
 
 
@@ -281,16 +298,47 @@ def run_property(pid, tier, seed, use_cache=True):
         return {"coverage": cov, "violations": viol, "level": "model_checking",
                 "assumptions": ["keeper-level driver: handlers via MsgServiceRouter in a cache context, module blockers called in app.go order",
                                 "projection harness/chain/project.go is faithful"]}
+    if pid in ("C01", "C03", "C18"):
+        rep = replicas_engine(tier, seed, use_cache)
+        pref = pid + "_"
+        viol = []
+        for v in rep["violations"]:
+            if v["formula"].startswith(pref):
+                sp = os.path.join(rep["dir"], v["script"] + ".script.json")
+                viol.append({"formula": v["formula"], "trace": sp, "line": 0, "seq": 0, "kind": "replicas", "detail": v["detail"],
+                             "whole_file": True, "fields": v.get("fields")})
+        mc = rep["model"]
+        cov = {
+            "states": sum(x["states"] for x in mc.values()), "transitions": sum(x["generated"] for x in mc.values()),
+            "traces_validated_against_impl": len(rep["schedules"]) + len(rep["c18"]),
+            "samples": (rep["schedules"][:4] if pid != "C18" else rep["c18"][:4]) or [{"note": "no schedule"}],
+            "model": mc, "schedules_run": len(rep["schedules"]), "schedules_agreeing": sum(1 for x in rep["schedules"] if x["agree"]),
+            "export_points": rep["c18"], "wall_s": rep["wall_s"],
+            "explanation": "Replicas.tla model-checked (implemented design: Agreement holds; hazard design: violated as witness); "
+                           "TLC-generated schedules executed on two real ABCI replicas (new process per restart) and compared hash by hash",
+        }
+        return {"coverage": cov, "violations": viol, "level": "model_checking",
+                "assumptions": ["replica B differs from A only by the schedule's non-consensus calls, restarts and lateness",
+                                "map-iteration nondeterminism is sampled by repeated runs, not enumerated"]}
     raise MachineryError("property %s has no engine yet" % pid)
 
 
 # ---------------------------------------------------------------------------
 def match_known(v, known):
+    """A violation is a known finding only if it has the finding's formula AND its specific signature:
+    the state fields that differ (fields ⊆ signature.fields) and/or the event fields of the failing step."""
     for k in known:
-        if k.get("formula") and k["formula"] != v["formula"]:
+        if k.get("formula") != v["formula"]:
             continue
         sig = k.get("signature", {})
-        if sig.get("kind") and sig["kind"] != v.get("kind"):
+        if "fields" in sig:
+            if not v.get("fields") or not set(v["fields"]) <= set(sig["fields"]):
+                continue
+        if "ev" in sig:
+            ev = v.get("ev") or {}
+            if any(ev.get(f) != val for f, val in sig["ev"].items()):
+                continue
+        if not sig:
             continue
         return k
     return None
@@ -302,7 +350,7 @@ def save_replay(pid, v):
     os.makedirs(d, exist_ok=True)
     with open(v["trace"]) as f:
         lines = f.readlines()
-        lines = [lines[v["line"] - 1]] if v.get("single_line") else lines[: v["line"]]
+        lines = lines if v.get("whole_file") else [lines[v["line"] - 1]] if v.get("single_line") else lines[: v["line"]]
     h = hashlib.sha256(("".join(lines) + v["formula"]).encode()).hexdigest()[:12]
     path = os.path.join(d, "%s-%s.ndjson" % (v["formula"], h))
     with open(path, "w") as f:
